@@ -65,7 +65,7 @@ def snap_index(idx):
             r = idx.loc_to_iloc(l)
         except Exception:  # noqa
             r = None
-        ok = isinstance(r, (int, np.integer)) and not isinstance(r, (bool, np.bool_))
+        ok = isinstance(r, (int, np.integer, bool, np.bool_))      # a bool position is the int it equals
         locs.append(int(r) if ok else None)
     return vals, npos, locs
 
@@ -118,34 +118,31 @@ def _j(v):
 
 
 def classify_index_ops(auto, labels, ops):
-    '''Finding class of a history BY CONSTRUCTION of its inputs (first one met), tracking only what the
+    '''Finding class of a history BY CONSTRUCTION of its inputs (the first one met), tracking only what the
     generator knows: the labels given so far and whether the index still is a pure 0..n-1 auto index.'''
     cur = list(labels)
     is_auto = auto
     for op in ops:
-        if op[0] == 'append':
-            vs = [op[1]]
-        elif op[0] == 'extend':
-            vs = list(op[1])
-        else:
+        if op[0] == 'read':
             continue
-        start = list(cur)
+        vs = [op[1]] if op[0] == 'append' else list(op[1])
+        added = []
+        rejected = False
         for k, v in enumerate(vs):
-            intlike = isinstance(v, (int, np.integer))
-            if is_auto and not intlike and _in(v, cur):
-                return F_AUTO
-            if _in(v, cur):
+            intlike = isinstance(v, (int, np.integer))      # bool is an int
+            now = cur + added
+            if _in(v, now):
+                if is_auto and not intlike:
+                    return F_AUTO
                 if k > 0:
                     return F_IDX_EXT
+                rejected = True                               # rejected at the first label: nothing appended
                 break
-            if is_auto and not (intlike and v == len(cur)):
+            if is_auto and not (intlike and v == len(now)):
                 is_auto = False
-            cur.append(v)
-        else:
-            continue
-        cur = cur if False else cur  # a rejected call: labels given before the failure stay in `cur` only for k>0 (returned above)
-        if len(cur) != len(start):
-            cur = start
+            added.append(v)
+        if not rejected:
+            cur += added
     return None
 
 
